@@ -926,3 +926,79 @@ def c18(v, tier, seed):
                      "and over-long ACF messages, wrong types, each validity field wrong, truncation at every structural boundary +-1, over-long datagrams, unterminated strings) "
                      "plus seeded random and bit-flipped datagrams; each case is delivered alone and followed by the well-formed datagram to the real receive path compiled "
                      "under ASan+UBSan with pattern-initialised locals, in a watchdog-guarded child; observations are validated by ListenerTrace (Safe)")
+
+
+@check("C20")
+def c20(v, tier, seed):
+    import headers, itertools, concurrent.futures as cf
+    wd = workdir()
+    q = tier == "quick"
+    facts = headers.scan_headers()
+    hdrs = list(facts)
+    fp = os.path.join(wd, "facts.ndjson")
+    with open(fp, "w") as f:
+        for h in hdrs:
+            for x in facts[h]:
+                f.write(json.dumps({k: x.get(k, "") for k in ("h", "kind", "name", "body")}) + "\n")
+    # (1) the model: every ordered pair (triples in the thorough tier)
+    depth = 2 if q else 3
+    res = run_tlc("Headers", "SPECIFICATION Spec\nCONSTANT Depth = %d\nCONSTRAINT Emit\nINVARIANT AloneClean\nCHECK_DEADLOCK FALSE\n" % depth, wd, env={"FACTS": fp}, heap="12g", timeout=2400)
+    v.add_tlc("Headers depth %d" % depth, res)
+    if not res.ok:
+        # a header that conflicts with itself: report through the compiler below as well
+        v.cov["model_note"] = "AloneClean violated: " + (res.violation or "")[-400:]
+    model = {tuple(e["order"]): e["bad"] for e in res.emitted}
+    # (2) the compiler: meanings alone, then every ordered tuple as C99 and C++
+    alone = headers.alone_values(wd, facts)
+    v.cov["public_constants_and_layout_facts"] = sum(len(x) for x in alone.values())
+    orders = list(itertools.permutations(hdrs, 2))
+    if not q:
+        orders += list(itertools.permutations(hdrs, 3))
+    orders += [tuple(hdrs), tuple(reversed(hdrs))]
+    jobs = [(o, lang) for o in orders for lang in ("c", "c++")]
+    def one(job):
+        o, lang = job
+        ok, errs = headers.compile_tuple(wd, list(o), alone, lang)
+        return job, ok, headers.classify(errs)
+    with cf.ThreadPoolExecutor(max_workers=NCPU) as pool:
+        results = list(pool.map(one, jobs, chunksize=8))
+    v.cov["evaluations"] += len(jobs)
+    def common_prefix(names):
+        names = sorted(names)
+        if not names: return "?"
+        if len(names) == 1: return names[0]
+        p = os.path.commonprefix(names)
+        return (p + "*") if len(p) >= 6 else ",".join(names[:4])
+    agree = disagree = 0
+    reported = set()
+    for (o, lang), ok, kinds in results:
+        mb = model.get(tuple(o))
+        if mb is not None:
+            if (len(mb) == 0) == ok: agree += 1
+            else: disagree += 1
+        if ok: continue
+        # attribute the conflict to the smallest clashing pair inside the tuple (pairs are all checked themselves)
+        if len(o) > 2:
+            pair_bad = any((not ok2) for (o2, l2), ok2, _ in results if len(o2) == 2 and l2 == lang and set(o2) <= set(o))
+            if pair_bad: continue
+        names = []
+        for k_ in kinds:
+            m = re.search(r"(AVTP_\w+|Avtp_\w+|avtp_\w+|struct \w+|sizeof\([^)]*\)|offsetof\([^)]*\))", k_)
+            if m: names.append(m.group(1))
+        mnames = set(b["name"] for b in (mb or []))
+        key = "headers=%s conflict=%s" % ("+".join(sorted(o)) if len(o) <= 3 else "all-%d-headers" % len(o), common_prefix(mnames if mnames else set(names)))
+        if key in reported: continue
+        reported.add(key)
+        mpred = sorted(set((b["conflict"], b["name"]) for b in (mb or [])))[:6]
+        v.violation(key, "including %s (as %s) does not compile cleanly or changes meanings: %s; model conflicts: %s" % (" then ".join(o) if len(o) <= 3 else "all headers", lang, "; ".join(kinds[:6]), mpred),
+                    {"order": list(o), "lang": lang, "compiler": kinds[:20], "model": mpred})
+    # model conflicts the compiler did not see (informational; the compiler is the oracle)
+    v.cov["model_vs_compiler"] = {"agree": agree, "disagree": disagree}
+    v.sample({"order": list(orders[0]), "model_conflicts": model.get(tuple(orders[0]), []), "compiler": "ok" if results[0][1] else results[0][2][:3]})
+    v.cov["distinct_nontrivial"] = len(orders)
+    v.cov["exhaustive"] = True
+    v.cov["rule"] = ("declaration facts scanned from the 26 public headers of the current tree; TLC explores every ordered %s of top-level includes in the Headers model "
+                     "(macro / identifier / tag environments, #pragma pack depth) and prints the predicted conflicts; every ordered pair%s and the all-headers unit in both orders "
+                     "is compiled as C99 and C++ with static assertions on %d public constants, sizes and member offsets (their stand-alone values)" % (
+                         "pair" if q else "pair and triple", "" if q else " and triple", v.cov["public_constants_and_layout_facts"]))
+    v.assumptions.append("the compiler's verdict is the oracle; the model contributes the enumeration and the explanation (agreement counted in model_vs_compiler)")
